@@ -204,6 +204,22 @@ let mapper_case (c : string) (ora : string) : string =
            | Some r -> (match List.nth_opt (!m).m_rules (int_of_nat r.mr_rule) with
                | Some ru -> results := rule_string ru r :: !results
                | None -> results := "Q BADRULE" :: !results))
+        | "D" ->
+          let h = ref 0xcbf29ce484222325L in
+          let feed (str : string) = String.iter (fun ch ->
+            h := Int64.mul (Int64.logxor !h (Int64.of_int (Char.code ch))) 0x100000001b3L) str in
+          List.iter (fun nh ->
+            let name = bytes_of_hex nh in
+            List.iter (fun tys ->
+              let (res, m') = get_mapping uni_word re_match cache_get cache_add !m name (bytes_of_string tys) in
+              m := m';
+              match res with
+              | None -> feed "Q -;"
+              | Some r -> (match List.nth_opt (!m).m_rules (int_of_nat r.mr_rule) with
+                  | Some ru -> feed (rule_string ru r ^ ";")
+                  | None -> feed "Q BADRULE;")) ["counter"; "gauge"; "observer"])
+            (String.split_on_char ',' toks.(1));
+          results := Printf.sprintf "D %016Lx" !h :: !results
         | _ -> results := "BADOP" :: !results) ops
     with Oracle_miss2 h -> results := ("ORACLE-MISS " ^ h) :: !results);
     String.concat " | " (List.rev !results)
